@@ -31,7 +31,20 @@ def check_case(case, info=None):
     cats = [Category.parse(c) for c in case['cats']]
     cd = {w: [Category.parse(c) for c in cs] for w, cs in case['dict'].items()}
     docs = [[Token.of_word(w) for w in ws] for ws in case['docs']]
-    scs = [ScoringResult(np.array(tg, dtype=np.float32).reshape(len(ws), len(cats)),
+    def layout(a):
+        k = case.get('layout', 'c')
+        if k == 'fortran':
+            return np.asfortranarray(a)
+        if k == 'slice':
+            wide = np.zeros((a.shape[0], a.shape[1] + 3), dtype=a.dtype)
+            wide[:, :a.shape[1]] = a
+            return wide[:, :a.shape[1]]
+        if k == 'transposed':
+            return np.ascontiguousarray(a.T).T
+        if k == 'float64':
+            return a.astype(np.float64)
+        return a
+    scs = [ScoringResult(layout(np.array(tg, dtype=np.float32).reshape(len(ws), len(cats))),
                          np.array(dp, dtype=np.float32).reshape(len(ws), len(ws) + 1))
            for ws, tg, dp in zip(case['docs'], case['tag'], case['dep'])]
     orig = [(s.tag_scores.copy(), s.dep_scores.copy()) for s in scs]
@@ -43,7 +56,7 @@ def check_case(case, info=None):
     except Exception as ex:
         bad(f'raises/{type(ex).__name__}', f'{type(ex).__name__}: {ex} (dictionary sizes {[len(v) for v in cd.values()]})')
         return fails
-    neg = np.float32(-10e+32 if lnv is None else lnv)
+    neg = scs[0].tag_scores.dtype.type(-10e+32 if lnv is None else lnv)
     if len(d2) != len(docs) or len(s2) != len(docs):
         bad('shape', f'returned {len(d2)} documents / {len(s2)} score results for {len(docs)} sentences')
         return fails
@@ -120,7 +133,8 @@ def build_case(data):
         tag.append([[-t.below(400) / 16 for _ in range(T)] for _ in range(n)])
         dep.append([[-t.below(400) / 16 for _ in range(n + 1)] for _ in range(n)])
     return {'cats': cats, 'dict': cd, 'docs': docs, 'tag': tag, 'dep': dep, 'single': t.chance(128),
-            'large_negative_value': t.pick([None, None, -1000.0])}
+            'large_negative_value': t.pick([None, None, -1000.0]),
+            'layout': t.pick(['c', 'c', 'c', 'fortran', 'slice', 'transposed', 'float64'])}
 
 
 # ------------------------------------------------------------------ shipped files
